@@ -298,11 +298,36 @@ where
     relocate_unpin!();
 }
 
+// ---- merge sources of any shape ---------------------------------------------------------------
+pub trait SrcChild: Stream {
+    fn make(id: u32) -> Self;
+    fn cid(&self) -> u32;
+}
+impl<P, M: OutMode> SrcChild for SimSrc<P, M> {
+    fn make(id: u32) -> Self {
+        SimSrc::new(id)
+    }
+    fn cid(&self) -> u32 {
+        self.id
+    }
+}
+impl<P, M: OutMode> SrcChild for NdSrc<P, M> {
+    fn make(id: u32) -> Self {
+        NdSrc::new(id)
+    }
+    fn cid(&self) -> u32 {
+        self.id
+    }
+}
+
 // ---- MergeBounded ----------------------------------------------------------------------------
-struct SMb(MergeBounded<SimSrc<PhantomPinned>>);
-impl Subject for SMb {
+struct SMb<S>(MergeBounded<S>);
+impl<S: SrcChild + 'static> Subject for SMb<S>
+where
+    S::Item: IntoTok,
+{
     fn push(&mut self, id: u32, how: PushHow) -> PushOut {
-        let s = SimSrc::new(id);
+        let s = S::make(id);
         match how {
             PushHow::Back | PushHow::Front => match guard(|| self.0.push(s)) {
                 Ok(()) => PushOut::Accepted,
@@ -310,12 +335,12 @@ impl Subject for SMb {
             },
             PushHow::TryBack | PushHow::TryFront => match self.0.try_push(s) {
                 Ok(()) => PushOut::Accepted,
-                Err(s) => PushOut::Refused(s.id),
+                Err(s) => PushOut::Refused(s.cid()),
             },
         }
     }
     fn poll(&mut self, cx: &mut Context<'_>) -> PollOut {
-        map_stream(Pin::new(&mut self.0).poll_next(cx))
+        map_stream_g(Pin::new(&mut self.0).poll_next(cx))
     }
     fn obs(&self) -> Obs {
         Obs {
@@ -327,17 +352,20 @@ impl Subject for SMb {
 }
 
 // ---- MergeUnbounded --------------------------------------------------------------------------
-struct SMu(MergeUnbounded<SimSrc<()>>);
-impl Subject for SMu {
+struct SMu<S>(MergeUnbounded<S>);
+impl<S: SrcChild + Unpin + 'static> Subject for SMu<S>
+where
+    S::Item: IntoTok,
+{
     fn push(&mut self, id: u32, _how: PushHow) -> PushOut {
-        let s = SimSrc::new(id);
+        let s = S::make(id);
         match guard(|| self.0.push(s)) {
             Ok(()) => PushOut::Accepted,
             Err(()) => PushOut::Panicked,
         }
     }
     fn poll(&mut self, cx: &mut Context<'_>) -> PollOut {
-        map_stream(Pin::new(&mut self.0).poll_next(cx))
+        map_stream_g(Pin::new(&mut self.0).poll_next(cx))
     }
     fn obs(&self) -> Obs {
         Obs {
@@ -352,10 +380,21 @@ impl Subject for SMu {
 }
 
 // ---- adapters --------------------------------------------------------------------------------
-struct SBu(Pin<Box<futures_buffered::BufferUnordered<SimUp<UpPlain>>>>);
-impl Subject for SBu {
+fn map_try_stream_g<A: IntoTok, B: IntoTok>(p: Poll<Option<Result<A, B>>>) -> PollOut {
+    match p {
+        Poll::Pending => PollOut::Pending,
+        Poll::Ready(Some(Ok(t))) => PollOut::Item(t.into_tok()),
+        Poll::Ready(Some(Err(t))) => PollOut::ItemErr(t.into_tok()),
+        Poll::Ready(None) => PollOut::End,
+    }
+}
+struct SBu<F: Future + MakeFut>(Pin<Box<futures_buffered::BufferUnordered<SimUp<UpG<F>>>>>);
+impl<F: Future + MakeFut> Subject for SBu<F>
+where
+    F::Output: IntoTok,
+{
     fn poll(&mut self, cx: &mut Context<'_>) -> PollOut {
-        map_stream(self.0.as_mut().poll_next(cx))
+        map_stream_g(self.0.as_mut().poll_next(cx))
     }
     fn obs(&self) -> Obs {
         Obs {
@@ -365,10 +404,13 @@ impl Subject for SBu {
     }
     relocate_pinned!();
 }
-struct SBo(Pin<Box<futures_buffered::BufferedOrdered<SimUp<UpPlain>>>>);
-impl Subject for SBo {
+struct SBo<F: Future + MakeFut>(Pin<Box<futures_buffered::BufferedOrdered<SimUp<UpG<F>>>>>);
+impl<F: Future + MakeFut> Subject for SBo<F>
+where
+    F::Output: IntoTok,
+{
     fn poll(&mut self, cx: &mut Context<'_>) -> PollOut {
-        map_stream(self.0.as_mut().poll_next(cx))
+        map_stream_g(self.0.as_mut().poll_next(cx))
     }
     fn obs(&self) -> Obs {
         Obs {
@@ -378,10 +420,18 @@ impl Subject for SBo {
     }
     relocate_pinned!();
 }
-struct STbu(Pin<Box<futures_buffered::TryBufferUnordered<SimUp<UpTry>>>>);
-impl Subject for STbu {
+struct STbu<F, A, E>(Pin<Box<futures_buffered::TryBufferUnordered<SimUp<UpTryG<F, E>>>>>)
+where
+    F: Future<Output = Result<A, E>> + MakeFut,
+    E: FromTok;
+impl<F, A, E> Subject for STbu<F, A, E>
+where
+    F: Future<Output = Result<A, E>> + MakeFut,
+    A: IntoTok + 'static,
+    E: FromTok + IntoTok,
+{
     fn poll(&mut self, cx: &mut Context<'_>) -> PollOut {
-        map_try_stream(self.0.as_mut().poll_next(cx))
+        map_try_stream_g(self.0.as_mut().poll_next(cx))
     }
     fn obs(&self) -> Obs {
         Obs {
@@ -391,10 +441,18 @@ impl Subject for STbu {
     }
     relocate_pinned!();
 }
-struct STbo(Pin<Box<futures_buffered::TryBufferedOrdered<SimUp<UpTry>>>>);
-impl Subject for STbo {
+struct STbo<F, A, E>(Pin<Box<futures_buffered::TryBufferedOrdered<SimUp<UpTryG<F, E>>>>>)
+where
+    F: Future<Output = Result<A, E>> + MakeFut,
+    E: FromTok;
+impl<F, A, E> Subject for STbo<F, A, E>
+where
+    F: Future<Output = Result<A, E>> + MakeFut,
+    A: IntoTok + 'static,
+    E: FromTok + IntoTok,
+{
     fn poll(&mut self, cx: &mut Context<'_>) -> PollOut {
-        map_try_stream(self.0.as_mut().poll_next(cx))
+        map_try_stream_g(self.0.as_mut().poll_next(cx))
     }
     fn obs(&self) -> Obs {
         Obs {
@@ -580,35 +638,86 @@ pub fn build(cfg: &Config, initial: Vec<u32>) -> Result<Box<dyn Subject>, ()> {
                     2 => Box::new(STja(try_join_all(initial.map(SimFut::<TryRaw>::new)))),
                     _ => Box::new(STja(try_join_all(initial.map(NdFut::<TryRaw>::new)))),
                 },
-                SubjectKind::MB => Box::new(SMb(initial.map(SimSrc::new).collect())),
-                SubjectKind::MU => match cfg.ctor {
-                    Ctor::Collect => Box::new(SMu(initial.map(SimSrc::new).collect())),
-                    _ => Box::new(SMu(MergeUnbounded::new())),
+                SubjectKind::MB => match cfg.shape & 3 {
+                    0 => Box::new(SMb(initial.map(SimSrc::<PhantomPinned, Plain>::new).collect::<MergeBounded<_>>())),
+                    1 => Box::new(SMb(initial.map(NdSrc::<PhantomPinned, Plain>::new).collect::<MergeBounded<_>>())),
+                    2 => Box::new(SMb(initial.map(SimSrc::<PhantomPinned, PlainRaw>::new).collect::<MergeBounded<_>>())),
+                    _ => Box::new(SMb(initial.map(NdSrc::<PhantomPinned, PlainRaw>::new).collect::<MergeBounded<_>>())),
                 },
-                SubjectKind::BU => Box::new(SBu(Box::pin(SimUp::<UpPlain>::new().buffered_unordered(cap)))),
+                SubjectKind::MU => {
+                    macro_rules! mu {
+                        ($S:ty) => {
+                            match cfg.ctor {
+                                Ctor::Collect => Box::new(SMu(initial.map(<$S>::new).collect::<MergeUnbounded<$S>>())) as Box<dyn Subject>,
+                                _ => Box::new(SMu(MergeUnbounded::<$S>::new())),
+                            }
+                        };
+                    }
+                    match cfg.shape & 3 {
+                        0 => mu!(SimSrc<(), Plain>),
+                        1 => mu!(NdSrc<(), Plain>),
+                        2 => mu!(SimSrc<(), PlainRaw>),
+                        _ => mu!(NdSrc<(), PlainRaw>),
+                    }
+                }
+                SubjectKind::BU => match cfg.shape & 3 {
+                    0 => Box::new(SBu(Box::pin(SimUp::<UpG<SimFut<Plain>>>::new().buffered_unordered(cap)))),
+                    1 => Box::new(SBu(Box::pin(SimUp::<UpG<NdFut<Plain>>>::new().buffered_unordered(cap)))),
+                    2 => Box::new(SBu(Box::pin(SimUp::<UpG<SimFut<PlainRaw>>>::new().buffered_unordered(cap)))),
+                    _ => Box::new(SBu(Box::pin(SimUp::<UpG<NdFut<PlainRaw>>>::new().buffered_unordered(cap)))),
+                },
                 SubjectKind::BO => {
-                    let mut a = Box::pin(SimUp::<UpPlain>::new().buffered_ordered(cap));
-                    if let Some(p) = sp {
-                        // SAFETY: only a counter is written; nothing is moved
-                        unsafe { a.as_mut().get_unchecked_mut() }.__verif_set_position(p);
+                    macro_rules! bo {
+                        ($F:ty) => {{
+                            let mut a = Box::pin(SimUp::<UpG<$F>>::new().buffered_ordered(cap));
+                            if let Some(p) = sp {
+                                // SAFETY: only a counter is written; nothing is moved
+                                unsafe { a.as_mut().get_unchecked_mut() }.__verif_set_position(p);
+                            }
+                            Box::new(SBo(a)) as Box<dyn Subject>
+                        }};
                     }
-                    Box::new(SBo(a))
+                    match cfg.shape & 3 {
+                        0 => bo!(SimFut<Plain>),
+                        1 => bo!(NdFut<Plain>),
+                        2 => bo!(SimFut<PlainRaw>),
+                        _ => bo!(NdFut<PlainRaw>),
+                    }
                 }
-                SubjectKind::TBU => {
-                    Box::new(STbu(Box::pin(SimUp::<UpTry>::new().try_buffered_unordered(cap))))
-                }
+                SubjectKind::TBU => match cfg.shape & 3 {
+                    0 => Box::new(STbu(Box::pin(SimUp::<UpTryG<SimFut<Try>, Tok>>::new().try_buffered_unordered(cap)))),
+                    1 => Box::new(STbu(Box::pin(SimUp::<UpTryG<NdFut<Try>, Tok>>::new().try_buffered_unordered(cap)))),
+                    2 => Box::new(STbu(Box::pin(SimUp::<UpTryG<SimFut<TryRaw>, RawTok>>::new().try_buffered_unordered(cap)))),
+                    _ => Box::new(STbu(Box::pin(SimUp::<UpTryG<NdFut<TryRaw>, RawTok>>::new().try_buffered_unordered(cap)))),
+                },
                 SubjectKind::TBO => {
-                    let mut a = Box::pin(SimUp::<UpTry>::new().try_buffered_ordered(cap));
-                    if let Some(p) = sp {
-                        // SAFETY: only a counter is written; nothing is moved
-                        unsafe { a.as_mut().get_unchecked_mut() }.__verif_set_position(p);
+                    macro_rules! tbo {
+                        ($F:ty, $E:ty) => {{
+                            let mut a = Box::pin(SimUp::<UpTryG<$F, $E>>::new().try_buffered_ordered(cap));
+                            if let Some(p) = sp {
+                                // SAFETY: only a counter is written; nothing is moved
+                                unsafe { a.as_mut().get_unchecked_mut() }.__verif_set_position(p);
+                            }
+                            Box::new(STbo(a)) as Box<dyn Subject>
+                        }};
                     }
-                    Box::new(STbo(a))
+                    match cfg.shape & 3 {
+                        0 => tbo!(SimFut<Try>, Tok),
+                        1 => tbo!(NdFut<Try>, Tok),
+                        2 => tbo!(SimFut<TryRaw>, RawTok),
+                        _ => tbo!(NdFut<TryRaw>, RawTok),
+                    }
                 }
                 SubjectKind::FEC => {
-                    let f: FecFn = |id| SimFut::new(id);
-                    Box::new(SFec(Box::pin(SimUp::<UpIdx>::new().for_each_concurrent(cap, f))
-                        as Pin<Box<dyn FusedFuture<Output = ()>>>))
+                    if cfg.shape & 1 != 0 {
+                        let f: fn(u32) -> NdFut<Unit> = |id| NdFut::new(id);
+                        Box::new(SFec(Box::pin(SimUp::<UpIdx>::new().for_each_concurrent(cap, f))
+                            as Pin<Box<dyn FusedFuture<Output = ()>>>))
+                    } else {
+                        let f: FecFn = |id| SimFut::new(id);
+                        Box::new(SFec(Box::pin(SimUp::<UpIdx>::new().for_each_concurrent(cap, f))
+                            as Pin<Box<dyn FusedFuture<Output = ()>>>))
+                    }
                 }
             }
         })
